@@ -455,11 +455,17 @@ class EOperation(ETypedElement):
 
     def to_code(self):
         parameters = [x.to_code() for x in self.eParameters]
+        # (the message shows the defaults, the header only placeholders)
+        shown = [x.name if x.required
+                 else f'{x.name}={x.get_default_value()!r}'
+                 for x in self.eParameters]
         if len(parameters) == 0 or parameters[0] != 'self':
             parameters.insert(0, 'self')
+            shown.insert(0, 'self')
         norm_name = self.normalized_name()
         parameters = ', '.join(parameters)
-        message = f'Method {norm_name}({parameters}) is not yet implemented'
+        shown = ', '.join(shown)
+        message = f'Method {norm_name}({shown}) is not yet implemented'
         return f"""def {norm_name}({parameters}):
         raise NotImplementedError({message!r})
         """ # noqa
@@ -477,15 +483,21 @@ class EParameter(ETypedElement):
             if isinstance(eoperation, EOperation):
                 eoperation._parameters_changed()
 
+    def get_default_value(self):
+        # the default of an optional parameter is the default of its type
+        try:
+            return getattr(self.eType, 'default_value', None)
+        except Exception:
+            # the type is a proxy that cannot be resolved (yet)
+            return None
+
     def to_code(self):
         if self.required:
             return f"{self.name}"
-        try:
-            default_value = getattr(self.eType, 'default_value', None)
-        except Exception:
-            # the type is a proxy that cannot be resolved (yet)
-            default_value = None
-        return f"{self.name}={default_value!r}"
+        # a placeholder: the default value need not have a source form (an
+        # enumeration literal...), the generated function gets the value
+        # itself (see EClass.__create_fun)
+        return f"{self.name}=None"
 
 
 class ETypeParameter(ENamedElement):
@@ -950,8 +962,13 @@ class EClass(EClassifier):
         # exec(code, namespace)
         code = compile_restricted(eoperation.to_code(), '<inline>', 'exec')
         exec(code, safe_builtins, namespace)
-        namespace[name]._generated_for = eoperation
-        setattr(self.python_class, name, namespace[name])
+        function = namespace[name]
+        # the defaults of the optional parameters, in declaration order
+        function.__defaults__ = tuple(x.get_default_value()
+                                      for x in eoperation.eParameters
+                                      if not x.required) or None
+        function._generated_for = eoperation
+        setattr(self.python_class, name, function)
 
     def _update_operation(self, eoperation):
         # the parameters of an operation of this class changed (an edit, or
